@@ -85,6 +85,29 @@ CHECKS = {
    technique="explicit-state model checking of the implementation (BFS over canonical cluster worlds, real scheduler cycle as transition relation) with reference predicates as oracle"),
 }
 
+# what later strengthening rounds added to each check (appended to the level text)
+ADDENDA = {
+ "C01": "Also explored: the share grammar's worlds with a terminating sharer, judged by the per-device clauses too (fractional capacity that is only terminating must not be handed to a bind).",
+ "C02": "Also explored: fractional gangs next to single sharers with every single bind failing in turn (a failed bind inside a statement must not free what its earlier binds occupy); fractional gangs whose members are pinned to different nodes, one of them with terminating capacity only, followed by whole-GPU and fractional pods in every creation order.",
+ "C03": "Menu includes elastic gangs with minimum 2 (with / without a terminating member); keys of violations in which a solver evicted AND re-nominated members carry moved-pods=<n>.",
+ "C04": "Topology grammar includes elastic workloads with nothing running yet and domains with only terminating capacity.",
+ "C05": "Workloads partly placed by allocate in the cycle are judged for what they still have unplaced; displacement is judged net of the victim (queues shared by victim and reclaimer do not grow), with department trees whose limit = quota = usage; elastic workloads whose first round is only nominated.",
+ "C07": "Also explored: several reclaimers of one department per cycle (4-6 workloads), queue trees whose leaves sit at different depths (pinned pods).",
+ "C08": "Also explored: elastic victims with a terminating pod and gangs below their minimum with a running member, inside queues at their limit / quota.",
+ "C10": "Every malformed input also runs under a second scheduler configuration; project-level fairness (fullHierarchyFairness=false) with user queues named like the generated parent; the sweep stops after 12 confirmed worker deaths (exhaustive:false then).",
+ "C11": "Every single-deviation execution is also continued with 'the scheduler replaces the still unbound pod's BindRequest by one selecting other GPU groups' before the fault-free recovery; pod kind with a SHARED DRA claim (already reserved for another consumer).",
+ "C12": "A small family (repeated hand-off failures) is explored on ONE scheduler cache that lives across all cycles and environment events of a path (schedrun.RunPath), so that what the cache remembers between cycles takes part.",
+ "C13": "Every sequence ending with [evict(t); unevict(t)] is additionally judged as an inverse pair (view after == view before the pair); base with running fractional pods on two nodes.",
+ "C15": "Also explored: a pending gang of 2-3 against ONE elastic job of 3-4 pods with pinned filler jobs (96 closed systems).",
+ "C16": "Priority classes at both ends of the legal value range; 5-6 jobs against queueDepthPerAction 3 / 4 with six push orders.",
+ "C17": "Interleaving programs include environment events that are IN FLIGHT (the consumer completes / is deleted as the first step of the handler thread, i.e. possibly after the bind's node-wide sync).",
+ "C18": "Histories include the environment event 'owner-relabelled' (the workload's top owner changes), so that a reconcile after a foreign update has a legitimate difference to write.",
+ "C19": "Every pod of the grid is also sent through the real ValidateUpdate as an annotation-only update of its accepted annotation-free twin; the verdict must equal ValidateCreate's.",
+ "C20": "Operator part: a second non-switch configuration variant (global nodeSelector, tolerations, security context) in the C1 -> C2 differential.",
+}
+for _k, _v in ADDENDA.items():
+    CHECKS[_k]["text"] += " " + _v
+
 NOT_APPLICABLE = []
 ALL = ["C%02d" % i for i in range(1, 21)]
 
